@@ -1,0 +1,35 @@
+//go:build verif
+
+package banderwagon
+
+import (
+	"github.com/crate-crypto/go-ipa/bandersnatch"
+	"github.com/crate-crypto/go-ipa/bandersnatch/fp"
+)
+
+// Verification hooks (build tag "verif").
+
+// VerifCoords returns the projective coordinates of e.
+func VerifCoords(e *Element) (x, y, z fp.Element) {
+	return e.inner.X, e.inner.Y, e.inner.Z
+}
+
+// VerifFromCoords builds an element from raw projective coordinates.
+func VerifFromCoords(x, y, z fp.Element) Element {
+	return Element{inner: bandersnatch.PointProj{X: x, Y: y, Z: z}}
+}
+
+// VerifPrecompShape returns, for basis point i, the window size and the table dimensions.
+func VerifPrecompShape(msm *MSMPrecomp, i int) (windowSize, windows, entries int) {
+	pp := &msm.precompPoints[i]
+	if len(pp.windows) == 0 {
+		return pp.windowSize, 0, 0
+	}
+	return pp.windowSize, len(pp.windows), len(pp.windows[0])
+}
+
+// VerifPrecompEntry returns table entry j of window k of basis point i.
+func VerifPrecompEntry(msm *MSMPrecomp, i, k, j int) (x, y, t fp.Element) {
+	e := msm.precompPoints[i].windows[k][j]
+	return e.X, e.Y, e.T
+}
